@@ -12,7 +12,7 @@ RULE = ("random programs (macros incl. macros calling macros with parameter name
         "the programs (otherwise valid) that have a parallel block with intersecting branches, and acceptance must not depend on the order of "
         "the branches; non-trivial = program has a parallel block or a macro call")
 BOUND = "n <= 4 qubits, depth <= 3, <= 3 statements per block, <= 2 macros"
-BUDGET_S = {"quick": 40, "thorough": 900}
+BUDGET_S = {"quick": 40, "thorough": 400}
 
 
 def cases(tier, rng):
